@@ -332,8 +332,8 @@ def check_real(params, b):
         mol.add_edge(truth['key'][(idx[0], 'SG')], truth['key'][(idx[1], 'SG')])
     cap = util.capture()
     try:
-        rep = RepairGraph(include_graph=False).run_molecule(mol)
-        rep = CanonicalizeModifications().run_molecule(rep)
+        rep = util.shared(RepairGraph, include_graph=False).run_molecule(mol)
+        rep = util.shared(CanonicalizeModifications).run_molecule(rep)
     except Exception as e:
         return 'upstream', {'error': repr(e)}
     cap.clear()
